@@ -63,6 +63,31 @@ def is_nonlinear(t):
     return False
 
 
+def _snapshot(obj):
+    if isinstance(obj, SArr):
+        return (obj.a, obj.n)
+    if isinstance(obj, Obj):
+        return {k: (v, _snapshot(v)) for k, v in obj.fields.items()}
+    if isinstance(obj, Rec):
+        return {k: (v, _snapshot(v)) for k, v in obj.fields.items()}
+    if isinstance(obj, PList):
+        return [(v, _snapshot(v)) for v in obj.items]
+    return None
+
+
+def _restore(obj, snap):
+    if isinstance(obj, SArr):
+        obj.a, obj.n = snap
+    elif isinstance(obj, (Obj, Rec)):
+        obj.fields = {k: v for k, (v, _) in snap.items()}
+        for k, (v, sn) in snap.items():
+            _restore(v, sn)
+    elif isinstance(obj, PList):
+        obj.items = [v for v, _ in snap]
+        for v, sn in snap:
+            _restore(v, sn)
+
+
 def _z(b):
     return z3.BoolVal(b) if isinstance(b, bool) else b
 
@@ -110,6 +135,8 @@ class OB:
         self.notes = []
         self._k = 0
         self._names = {}
+        self._seen_side = set()
+        self.tracked = []        # mutable symbolic inputs (arrays, objects, records) reset at the start of every path
         self.results = {}
         self._realfn = None
         self._rtol = 1e-9
@@ -164,7 +191,7 @@ class OB:
         return SV(v, pinf=p, kind=kind)
 
     def rec(self, kind='series', **fields):
-        return Rec(fields, kind)
+        return self.track(Rec(fields, kind))
 
     def array(self, name, elem='real', n=None, kind='ndarray', unchecked=False):
         sort = z3.RealSort() if elem == 'real' else z3.IntSort()
@@ -172,7 +199,13 @@ class OB:
         if n is None:
             n = self.int(name + '_len')
             self.assume(n >= 0)
-        return SArr(a, n, elem, kind, unchecked)
+        r = SArr(a, n, elem, kind, unchecked)
+        self.tracked.append(r)
+        return r
+
+    def track(self, obj):
+        self.tracked.append(obj)
+        return obj
 
     # ---- real code access
     def module(self, modname):
@@ -225,7 +258,13 @@ class OB:
     def paths(self, thunk):
         saved = list(self.hyps)
         # contract hypotheses are visible to the path pruner
+        snaps = [(obj, _snapshot(obj)) for obj in self.tracked]
+
         def wrapped():
+            # contract-created mutable inputs start every path in their initial state
+            for obj, snap in snaps:
+                _restore(obj, snap)
+            self.I.external_calls = []
             for h in saved:
                 self.I.assume(h)
             return thunk()
@@ -257,6 +296,10 @@ class OB:
                 continue
             if ob.kind == 'safety' and (not self.safety_on or any(s in ob.label for s in self.safety_exempt)):
                 continue
+            key = (ob.kind, ob.goal.get_id(), tuple(h.get_id() for h in ob.hyps if hasattr(h, 'get_id')), len(self.hyps))
+            if key in self._seen_side:
+                continue
+            self._seen_side.add(key)
             hyps = self.hyps + ob.hyps
             for sub, facts, hide in self.side_hints:
                 if sub in ob.label or sub == ob.kind:
